@@ -260,22 +260,24 @@ CHECKS["C15"] = dict(
 
 # ---- additions made while strengthening the checks against independently seeded changes ----
 _EXTRA = {
-    "C01": " Windows of 32768/32769/40000 samples are judged with a sparse explicit-DFT reference (FFT length must cover the window); azimuth sets include a non-ascending one.",
+    "C01": " Windows of 32768/32769/40000 samples are judged with a sparse explicit-DFT reference (FFT length must cover the window); azimuth sets include a non-ascending one; FFT requests with a norm keyword, integer-typed centre frequencies and common factors of 1e-18/1e18 are included.",
     "C02": " Integer and float32 spectra must give the float64 result; pairs of FFT grids with equal size but different spacing run inside one root (state carried between grids).",
-    "C03": " The 'alone' references are computed in processes without history (engine/pristine.py), so process-global state cannot make joint and alone runs wrong alike.",
+    "C03": " Descending/unsorted centre-frequency sets and pool members scaled by 1e9/1e-9 are included. The 'alone' references are computed in processes without history (engine/pristine.py), so process-global state cannot make joint and alone runs wrong alike.",
     "C04": " Tiny (< 0.1 degree) re-orientations, step compositions, orient-modify-orient histories and non-ascending azimuth sets are included.",
     "C05": " Histories are also explored in touch mode (statistics read after every operation) with manual re-acceptance and compound mask edits; a window with exactly zero amplitude is included.",
     "C06": " Calls with find_peaks_kwargs={} (entry peak search takes the early return, earlier rejections persist) and 9-11-window lop-sided sets are included.",
-    "C07": " Same-path histories (failed read, file rewritten, read again; content replaced) are explored per format.",
+    "C07": " In-memory inputs, one-shot iterables and other containers for read()'s per-recording arguments, mixed-format lists sharing one options dict and non-builtin real numbers given once are included. Same-path histories (failed read, file rewritten, read again; content replaced) are explored per format.",
     "C08": " Two grids with equal length and end points are explored one after the other inside one root with limits in absolute Hz; touch mode.",
-    "C09": " Fresh-state references are computed in processes without history; centre frequencies are ndarrays or lists; non-default time-step policies are in the menu.",
+    "C09": " A numpy array inside a recording's meta and a near-equal time step (0.01 vs float32(0.01)) are included. Fresh-state references are computed in processes without history; centre frequencies are ndarrays or lists; non-default time-step policies are in the menu.",
     "C11": " Touch mode, manual re-acceptance and compound mask edits (same total, other split), single-frequency curve sets, a finely spaced grid and zero-amplitude windows are included.",
     "C12": " All four (distribution_mc, distribution_fn) pairs, kwargs that change the selected peak, rejections with a bounded range and non-increasing azimuth sets are included; touch mode.",
+    "C10": " window_length_in_seconds=None (unsplit) and windows of more than two million sample intervals are included.",
+    "C17": " Amplitude scales 1e-9, 1e-12 and 1e9 are included (every tolerance is relative; the diffuse-field ratio must be scale invariant).",
     "C13": " Amplitude factor 1e-8 and window pairs with equal sample count but different time step are included.",
     "C15": " Loads into objects that already hold other (richer) content are checked for every class.",
     "C16": " sigma_f = 0 and pairs of grids with equal length, end points and f0 sample (same explicit range, one process) are included.",
     "C18": " Touch mode: the recording is checkpointed to disk after every operation.",
-    "C19": " A settings variant with a nested fft_settings dict is included; the quick file set mixes sampling rates that share one padded FFT length.",
+    "C19": " Mixed --distribution_mc/--distribution_fn runs and two high sampling rates 5.9e-6 s apart (short windows) are included. A settings variant with a nested fft_settings dict is included; the quick file set mixes sampling rates that share one padded FFT length.",
     "C20": " The default call draws the live object of the history, touch mode draws it after every operation, manual re-acceptance and compound mask edits are in the menu.",
 }
 for _k, _v in _EXTRA.items():
